@@ -231,7 +231,10 @@ class Exec:
                 st = os.stat(tmp) if cur is not None else None
                 tmp.write_bytes(self.blobs[v])
                 def compute():
-                    idx, asm = self.index_mod.index_fasta_file(tmp, self.knobs["idx_buf"])
+                    # (with the default buffer - larger than any generated content -, not
+                    # with the buffer knob of the history: the reference is the plain
+                    # single-chunk scan; that the knob does not matter is C13)
+                    idx, asm = self.index_mod.index_fasta_file(tmp, 250_000)
                     return (index_canon(idx), asm_canon(asm))
 
                 # in a forked child: the reference neither sees nor leaves state
